@@ -63,7 +63,8 @@ def run_class(key, clauses, nullable=False):
             out.append({"unit": f"L2/{short}/writer", "obligations": [], "paths": 0, "time": 0,
                         "undecided": ["closure returned by entity_writer is not recognised"], "functions": []})
         else:
-            for r in L1.verify_writer(reg, w, c, label=f"L2/{short}"):
+            from checks import frames
+            for r in L1.verify_writer(reg, w, c, label=f"L2/{short}", history_replayer=frames.history_replayer(key)):
                 r.unit = r.unit.replace("L1/writer/", "")
                 out.append(common.summarise(r, [common.function_record(w)]))
     rd = [c for c in ("match", "trunc", "general") if c in clauses]
@@ -123,6 +124,8 @@ def run_roundtrip(key):
     w, r = entity_writer(T), entity_reader(T)
     short = key.replace("kio.schema.", "")
     res = Result(f"L2/{short}/roundtrip")
+    from checks import frames
+    res.history_replayer = frames.history_replayer(key)
 
     def run(ctx):
         x = schema_spec.generic_entity(ctx, T, "x")
